@@ -96,7 +96,18 @@ def growth_case(case):
     span = abs(float(tf - t0))
     lim = int(8 * span / abs(float(case["dt0"])) * (16 if case["kind"] == "shrink" else 1) + 400)
     b = driver.Budget(lim)
+    if case["kind"] == "events-multi":
+        # one non-terminal event function with a root in the middle of EVERY step of the requested size, several integrate(t) calls:
+        # later calls pre-allocate exactly int(span/dt) rows, so steps land in the last slot of the buffer while events are being processed
+        dt_ = abs(float(case["dt0"]))
+
+        def e_all(t, y, **kw):
+            return np.asarray(np.cos(np.pi * (t - float(t0)) / dt_))
+        evs = [e_all]
     try:
+        if case["kind"] == "events-multi":
+            for frac in case["cuts"]:
+                a.integrate(dtype(float(t0) + frac * float(tf - t0)), callback=cbs + [b], events=evs)
         a.integrate(callback=cbs + [b], events=evs)
     except de.exception_types.FailedIntegration as e:
         r.n = 1
@@ -164,6 +175,10 @@ def run(ctx):
             for (t0, tf) in ((0.0, 2.0), (2.0, -2.0), (-3.0, -1.0)):
                 cases.append(dict(kind="shrink", method=m, dtype="float64", t0=t0, tf=tf, dt0=0.25))
                 cases.append(dict(kind="events", method=m, dtype="float64", t0=t0, tf=tf, dt0=2.0 ** -9))
+            for (t0, tf) in ((0.0, 3.0), (3.0, -3.0), (-6.0, -3.0)):
+                for dt0 in (0.25, 0.5, 0.75):
+                    for cuts in ([1.0 / 3, 2.0 / 3], [0.5], [0.25, 0.5, 0.75]):
+                        cases.append(dict(kind="events-multi", method=m, dtype="float64", t0=t0, tf=tf, dt0=dt0, cuts=cuts))
             for dn in ("float64", "float32") if m in ("EulerSolver", "RK4Solver") else ("float64",):
                 cases.append(dict(kind="long", method=m, dtype=dn, t0=0.0, tf=8.0, dt0=2.0 ** -10))
                 cases.append(dict(kind="long", method=m, dtype=dn, t0=4.0, tf=-4.0, dt0=2.0 ** -10))
